@@ -206,7 +206,8 @@ CLAIMED.update({
             'labels/head flags/attributes), conll heads (= the head assignment implied by the head flags: one root, every other '
             'word attached inside its parent span), json (shape/categories/labels/attributes), deriv (an independent Lean reader of '
             'the ASCII art recovers words, shape, categories and rule symbols of every printed derivation: deriv_decode; it is '
-            'also run on the real output), prolog (an independent Lean term reader recovers sentence numbers, rule functors, category '
+            'also run on the real output), the conll table (an independent Lean reader of the ten-column table: conll_decode, '
+            'with the exact necessity of its hypotheses conll_decode_iff, conll_rows; also run on the real output), prolog (an independent Lean term reader recovers sentence numbers, rule functors, category '
             'spellings, the extra category arguments and all leaf fields of both the English and the Japanese format: '
             'prolog_en_decode, prolog_ja_decode; also run on the real output), html (a Lean reader decodes the MathML of every tree back to nesting, words, labels and '
             'category segments), record numbering by sentence for every line format and prolog. All twelve printers '
@@ -216,6 +217,9 @@ CLAIMED.update({
             'float formatting of the header scores is a parameter.',
             'DESIGN.md §4 C07'),
     'C19': (T_PROOF,
+            'Proved, at the level of the whole program (main_total_partial): whatever the input lines and scores, the model of the '
+            'program prints a text in every format it models, for both shipped grammars (the unrestricted statement is refuted by a '
+            'category *value* no text denotes: an atom named NP\\NP; replayed on the real code). '
             'Proved: label closure of both grammars (C03/C04) is contained in the printers\' label tables, which are re-emitted '
             'from the imported modules on every run and checked equal to the model tables by kernel evaluation; every line / XML / '
             'json format is total on trees whose tokens have a word, the Prolog formats on trees whose labels are in the tables '
